@@ -170,6 +170,24 @@ def setString (s : String) (base : Int) : Int × Bool :=
   | '-' :: cs => match decDigits cs with | some n => (-(n : Int), true) | none => (0, false)
   | '+' :: cs => match decDigits cs with | some n => ((n : Int), true) | none => (0, false)
   | cs => match decDigits cs with | some n => ((n : Int), true) | none => (0, false)
+/-- `z.SetString(s, 16)`: an optional sign followed by one or more hexadecimal digits (either case), nothing else. -/
+def hexDigitVal (c : Char) : Option Nat :=
+  if c.isDigit then some (c.toNat - 48)
+  else if 'a'.toNat ≤ c.toNat ∧ c.toNat ≤ 'f'.toNat then some (c.toNat - 87)
+  else if 'A'.toNat ≤ c.toNat ∧ c.toNat ≤ 'F'.toNat then some (c.toNat - 55)
+  else none
+def hexDigits (cs : List Char) : Option Nat :=
+  if cs.isEmpty then none else
+  cs.foldl (fun acc c => match acc with
+    | none => none
+    | some n => match hexDigitVal c with
+      | some d => some (n * 16 + d)
+      | none => none) (some 0)
+def setString16 (s : String) : Int × Bool :=
+  match s.toList with
+  | '-' :: cs => match hexDigits cs with | some n => (-(n : Int), true) | none => (0, false)
+  | '+' :: cs => match hexDigits cs with | some n => ((n : Int), true) | none => (0, false)
+  | cs => match hexDigits cs with | some n => ((n : Int), true) | none => (0, false)
 /-- `x.FillBytes(buf)` does not panic: `|x|` fits into `len(buf)` bytes -/
 def fillOk (x : Int) (buf : Bytes) : Bool := decide (x.natAbs < 256 ^ buf.length)
 /-- `z.ModInverse(g, n)` for prime `n` (`g` is reduced first; `g ≡ 0` has no inverse: `nil`, `z` unchanged). -/
